@@ -310,6 +310,9 @@ func (c *Ctx) seeElemRead(key, ref, idx string) {
 		if pr.alloc != "" {
 			bound = "(<= " + ref + " " + pr.alloc + ")"
 		}
+		if pr.etype != "" {
+			bound = "(and " + bound + " (= (arr.etype " + ref + ") " + pr.etype + "))"
+		}
 		if pr.except != "" {
 			exc := replaceTok(replaceTok(pr.except, "r!", ref), "j!", idx)
 			c.rawFact(implies(pr.reach, fmt.Sprintf("(=> (and %[2]s (not %[3]s)) (= (select (select %[4]s %[1]s) %[5]s) (select (select %[6]s %[1]s) %[5]s)))", ref, bound, exc, pr.cur, idx, pr.old)))
@@ -1198,6 +1201,34 @@ func (e *Env) call(x *ECall) *SV {
 			parts = append(parts, fmt.Sprintf("(forall ((r! Int) (j! Int)) (! (=> (not (and (= r! (s-ref %[1]s)) (<= (+ (s-off %[1]s) %[2]s) j!) (< j! (+ (s-off %[1]s) %[3]s)))) (= (select (select %[4]s r!) j!) (select (select %[5]s r!) j!))) :pattern ((select (select %[4]s r!) j!))))", b.S, arg(2).S, arg(3).S, cur, old))
 		}
 		return e.boolSV(and(parts...))
+	case "keptOfType":
+		// keptOfType(elems(T)): every array of element type T that existed on entry is unchanged
+		// (arrays of other element types that share the SMT sort of T may change)
+		if e.old == nil {
+			specFail("keptOfType() needs an entry state")
+		}
+		des := x.Args[0].String()
+		if !strings.HasPrefix(des, "elems(") || !strings.HasSuffix(des, ")") {
+			specFail("keptOfType needs elems(T)")
+		}
+		et := c.resolveType(des[6:len(des)-1], e.pkg)
+		if b, ok := et.(*types.Basic); ok {
+			et = types.Typ[b.Kind()]
+		}
+		id := c.typeID(et)
+		k, hs := c.elemHeap(c.sortOf(et))
+		c.heapSortsTouchC(k, hs)
+		cur := c.heapGet(e.st, k, hs)
+		old := c.heapGet(e.old, k, hs)
+		if cur == old {
+			return e.boolSV("true")
+		}
+		c.declareFun("arr.etype", []string{"Int"}, "Int")
+		c.uses["quant"] = true
+		if c.assuming != "" {
+			c.presRels = append(c.presRels, presRel{key: k, cur: cur, old: old, alloc: e.old.alloc, reach: c.assuming, etype: fmt.Sprint(id)})
+		}
+		return e.boolSV(fmt.Sprintf("(forall ((r! Int)) (! (=> (and (<= r! %s) (= (arr.etype r!) %d)) (= (select %s r!) (select %s r!))) :pattern ((select %s r!))))", e.old.alloc, id, cur, old, cur))
 	case "keptExcept":
 		// keptExcept(<heap designator>, b, lo, hi): every array that existed on entry is unchanged in the
 		// element heap, except possibly b[lo:hi] (arrays allocated during the call are not constrained)
